@@ -10,6 +10,7 @@ import (
 	"strconv"
 	"strings"
 	"sync"
+	"unicode/utf8"
 
 	"rare/pkg/multiterm"
 )
@@ -45,7 +46,23 @@ func c20Capture(fn func()) []byte {
 	return b
 }
 
-// ---------------------------------------------------------------- Go copy of the VT100-subset machine (Rare.C20.Term)
+// ---------------------------------------------------------------- Go copy of the reference terminal (Rare.C20.Scr)
+
+// c20Width is the Go copy of Rare.C20.eaWidth (cells occupied by a rune).
+func c20Width(r rune) int {
+	switch {
+	case r < 32 || (r >= 127 && r < 160):
+		return 0
+	case (r >= 0x300 && r <= 0x36F) || (r >= 0x200B && r <= 0x200F) || (r >= 0xFE00 && r <= 0xFE0F):
+		return 0
+	case (r >= 0x1100 && r <= 0x115F) || (r >= 0x2E80 && r <= 0x303E) || (r >= 0x3041 && r <= 0x4DBF) ||
+		(r >= 0x4E00 && r <= 0xA4CF) || (r >= 0xAC00 && r <= 0xD7A3) || (r >= 0xF900 && r <= 0xFAFF) ||
+		(r >= 0xFE30 && r <= 0xFE6F) || (r >= 0xFF00 && r <= 0xFF60) || (r >= 0xFFE0 && r <= 0xFFE6) ||
+		(r >= 0x1F300 && r <= 0x1F64F) || (r >= 0x1F900 && r <= 0x1F9FF) || (r >= 0x20000 && r <= 0x3FFFD):
+		return 2
+	}
+	return 1
+}
 
 type vt struct {
 	w, h     int
@@ -92,27 +109,40 @@ func (t *vt) down() {
 	t.rows = n
 }
 
-func (t *vt) put(r rune) {
-	if t.col >= t.w {
-		t.down()
-		t.col = 0
-	}
-	cells := t.getRow(t.row)
+func writeAt(cells []rune, c int, r rune) []rune {
 	var out []rune
-	if t.col <= len(cells) {
-		out = append(out, cells[:t.col]...)
+	if c <= len(cells) {
+		out = append(out, cells[:c]...)
 	} else {
 		out = append(out, cells...)
-		for len(out) < t.col {
+		for len(out) < c {
 			out = append(out, ' ')
 		}
 	}
 	out = append(out, r)
-	if t.col+1 < len(cells) {
-		out = append(out, cells[t.col+1:]...)
+	if c+1 < len(cells) {
+		out = append(out, cells[c+1:]...)
 	}
-	t.setRow(t.row, out)
-	t.col++
+	return out
+}
+
+func (t *vt) put(r rune) {
+	w := c20Width(r)
+	if w == 0 {
+		return
+	}
+	if t.col+w > t.w {
+		t.down()
+		t.col = 0
+	}
+	cells := writeAt(t.getRow(t.row), t.col, r)
+	if w == 1 {
+		t.setRow(t.row, cells)
+		t.col++
+	} else {
+		t.setRow(t.row, writeAt(cells, t.col+1, 0))
+		t.col += 2
+	}
 }
 
 func parseNum(p []rune) (int, bool) {
@@ -168,39 +198,63 @@ func (t *vt) dispatch(final rune) {
 	}
 }
 
+func (t *vt) c0(r rune) {
+	switch r {
+	case 10, 11, 12:
+		t.down()
+		if t.onlcr {
+			t.col = 0
+		}
+	case 13:
+		t.col = 0
+	case 8:
+		if t.col > 0 {
+			t.col--
+		}
+	case 9:
+		if t.col+1 < t.w {
+			n := (t.col/8 + 1) * 8
+			if n > t.w-1 {
+				n = t.w - 1
+			}
+			t.col = n
+		}
+	}
+}
+
 func (t *vt) step(r rune) {
+	switch {
+	case r == 27:
+		t.ps = 1
+		return
+	case r == 24 || r == 26:
+		t.ps = 0
+		return
+	case r < 32:
+		t.c0(r)
+		return
+	}
 	switch t.ps {
 	case 0:
-		switch {
-		case r == 27:
-			t.ps = 1
-		case r == '\n':
-			t.down()
-			if t.onlcr {
-				t.col = 0
-			}
-		case r == '\r':
-			t.col = 0
-		case r < 32 || r == 127:
-		default:
+		if r != 127 {
 			t.put(r)
 		}
 	case 1:
-		if r == '[' {
+		switch {
+		case r >= 127:
+		case r == '[':
 			t.ps = 2
 			t.params = nil
-		} else {
+		default:
 			t.ps = 0
 		}
 	case 2:
 		switch {
-		case r >= 0x20 && r <= 0x3f:
+		case r <= 0x3f:
 			t.params = append(t.params, r)
-		case r >= 0x40 && r <= 0x7e:
+		case r <= 0x7e:
 			t.ps = 0
 			t.dispatch(r)
-		default:
-			t.ps = 0
 		}
 	}
 }
@@ -285,13 +339,20 @@ func visibleRunes(rs []rune) []rune {
 
 func c20Run(f []string) string {
 	switch f[0] {
-	case "term", "termx":
+	case "term", "termx", "termh":
 		width, _ := strconv.Atoi(f[1])
 		trim := f[2] == "1"
 		clear, hide := true, true
 		hs := f[3]
+		height, row0 := -1, 0
 		if f[0] == "termx" {
 			clear, hide = f[3] == "1", f[4] == "1"
+			hs = f[5]
+		}
+		if f[0] == "termh" {
+			height, _ = strconv.Atoi(f[2])
+			row0, _ = strconv.Atoi(f[3])
+			trim = f[4] == "1"
 			hs = f[5]
 		}
 		h := c20ParseHist(hs)
@@ -309,10 +370,13 @@ func c20Run(f []string) string {
 			}
 			tw.Close()
 		})
-		ml := c20MaxLine(h)
-		t := newVT(width, ml+3, false)
+		if height < 0 {
+			height = c20MaxLine(h) + 3
+		}
+		t := newVT(width, height, false)
+		t.row = row0
 		t.feed(out)
-		return fmt.Sprintf("ok b=%s rows=%s row=%d vis=%s", Hex(out), t.rowsOut(ml+2), t.row, b01(t.vis))
+		return fmt.Sprintf("ok b=%s rows=%s row=%d vis=%s", Hex(out), t.rowsOut(height), t.row, b01(t.vis))
 	case "trim":
 		width, _ := strconv.Atoi(f[1])
 		multiterm.VerifSetTermSize(24, width)
@@ -328,7 +392,11 @@ func c20Run(f []string) string {
 				inEsc = r == 27
 			}
 		}
-		return fmt.Sprintf("ok %s v=%d e=%s", Hex(buf.Bytes()), len(visibleRunes(rs)), b01(inEsc))
+		cells := 0
+		for _, r := range visibleRunes(rs) {
+			cells += c20Width(r)
+		}
+		return fmt.Sprintf("ok %s v=%d e=%s c=%d", Hex(buf.Bytes()), len(visibleRunes(rs)), b01(inEsc), cells)
 	case "vterm":
 		h := c20ParseHist(f[1])
 		v := multiterm.NewVirtualTerm()
@@ -398,13 +466,20 @@ func c20VtermRun(v *multiterm.VirtualTerm, h []c20Item) {
 // ---------------------------------------------------------------- generators
 
 var c20Sgr = []string{"\x1b[31m", "\x1b[0m", "\x1b[1;32m", "\x1b[38;5;200m", "\x1b[m", "\x1b[4m"}
-var c20Multi = []string{"é", "ß", "世", "界", "€", "😀", "𝄞", " ", "�"}
-var c20Bad = []string{"\x1b", "\x1b[", "\x1b[31", "\n", "\r", "\x1b[2K", "\x1b[1A", "\xff", "\xc3", "\xe4\xb8", "\xf0\x9f\x98", "\xed\xa0\x80", "\xc0\xaf", "\x7f", "\t", "\x1bm", "\x1bxm", "m"}
+var c20Multi = []string{"é", "ß", "€", "𝄞", "\u00a0", "\ufffd", "ж", "→"}
+var c20Wide = []string{"世", "界", "😀", "한", "Ａ", "e\u0301", "\u0085", "\u200b"}
+var c20Bad = []string{"\x1b", "\x1b[", "\x1b[31", "\n", "\r", "\x1b[2K", "\x1b[1A", "\xff", "\xc3", "\xe4\xb8", "\xf0\x9f\x98", "\xed\xa0\x80", "\xc0\xaf", "\x7f", "\t", "\x1bm", "\x1bxm", "m",
+	"\b", "\x0b", "\x0c", "\x18", "\x1a", "\x07", "\x00", "\x1b[3\n1m", "\x1b[3\x1b[1m", "\x1b(B", "\x1b[?25h", "\x1b[10A", "\x1b[3é1m"}
+
+// c20Tails: unterminated colour sequences (allowed at the very end of a text of the class)
+var c20Tails = []string{"\x1b", "\x1b[", "\x1b[31", "\x1b[1;3", "\x1b[38:5:"}
 
 // c20Text builds a text of about `vis` visible runes; well-formed unless bad.
 func c20Text(r *Rand, vis int, bad bool) string {
 	var sb strings.Builder
 	open := false
+	wide := r.Chance(1, 8) // wide / zero-width runes: outside the class of the refinement theorems
+	invalid := !bad && r.Chance(1, 10)
 	for i := 0; i < vis; i++ {
 		if r.Chance(1, 6) {
 			sb.WriteString(Pick(r, c20Sgr))
@@ -414,6 +489,10 @@ func c20Text(r *Rand, vis int, bad bool) string {
 			sb.WriteString(Pick(r, c20Bad))
 		}
 		switch {
+		case wide && r.Chance(1, 4):
+			sb.WriteString(Pick(r, c20Wide))
+		case invalid && r.Chance(1, 4):
+			sb.WriteString(Pick(r, []string{"\xff", "\xc3", "\xe4\xb8", "\xf0\x9f\x98", "\xed\xa0\x80", "\xc0\xaf", "\x80"}))
 		case r.Chance(1, 5):
 			sb.WriteString(Pick(r, c20Multi))
 		case r.Chance(1, 8):
@@ -430,7 +509,42 @@ func c20Text(r *Rand, vis int, bad bool) string {
 	if bad && r.Chance(1, 3) {
 		sb.WriteString(Pick(r, c20Bad))
 	}
+	if !bad && r.Chance(1, 12) {
+		sb.WriteString(Pick(r, c20Tails))
+	}
 	return sb.String()
+}
+
+// c20HistH: a history for a screen of `height` rows: lines climb beyond the bottom row; updates
+// mostly go to lines that are still on the screen (reachable), sometimes to one that scrolled off.
+func c20HistH(r *Rand, width, height int, trim bool) string {
+	n := 1 + r.Intn(14)
+	maxSoFar := 0
+	var items []string
+	for i := 0; i < n; i++ {
+		var line int
+		switch {
+		case r.Chance(1, 3):
+			line = maxSoFar + r.Intn(3)
+		case r.Chance(1, 12):
+			line = r.Intn(maxSoFar + 1) // anywhere, possibly scrolled off
+		default:
+			lo := maxSoFar - (height - 1)
+			if lo < 0 {
+				lo = 0
+			}
+			line = lo + r.Intn(maxSoFar-lo+1)
+		}
+		if line > maxSoFar {
+			maxSoFar = line
+		}
+		vis := r.Intn(width + 3)
+		if !trim && vis > width {
+			vis = width
+		}
+		items = append(items, fmt.Sprintf("%d:%s", line, HexS(c20Text(r, vis, r.Chance(1, 25)))))
+	}
+	return strings.Join(items, ",")
 }
 
 func c20Hist(r *Rand, width int, trim bool, bad bool, allowClose bool) string {
@@ -494,7 +608,14 @@ func c20Gen(r *Rand, tier string) []string {
 		if trim {
 			tb = 1
 		}
-		switch k := r.Intn(20); {
+		switch k := r.Intn(24); {
+		case k >= 20:
+			height := Pick(r, []int{1, 2, 3, 4, 5, 8})
+			row0 := r.Intn(height)
+			if r.Chance(1, 3) {
+				row0 = height - 1
+			}
+			out = append(out, fmt.Sprintf("termh %d %d %d %d %s", width, height, row0, tb, c20HistH(r, width, height, trim)))
 		case k < 10:
 			out = append(out, fmt.Sprintf("term %d %d %s", width, tb, c20Hist(r, width, trim, bad, false)))
 		case k < 12:
@@ -543,7 +664,7 @@ func c20Gen(r *Rand, tier string) []string {
 			if len(items) > 0 {
 				hs = strings.Join(items, ",")
 			}
-			out = append(out, "term 3 1 "+hs, "term 3 0 "+hs, "bterm 3 1 "+hs)
+			out = append(out, "term 3 1 "+hs, "term 3 0 "+hs, "bterm 3 1 "+hs, "termh 3 3 1 1 "+hs, "termh 3 2 0 1 "+hs)
 			if len(items) < 3 {
 				for _, l := range lines {
 					for _, t := range texts {
@@ -567,6 +688,13 @@ func c20Stats(cases []string) map[string]int {
 		case "term", "bterm":
 			hs = f[3]
 			st[f[0]+".trim"+f[2]]++
+		case "termh":
+			hs = f[5]
+			hh, _ := strconv.Atoi(f[2])
+			r0, _ := strconv.Atoi(f[3])
+			if r0+c20MaxLine(c20ParseHist(hs))+2 > hh {
+				st["termh.scrolls"]++
+			}
 		case "termx":
 			hs = f[5]
 		case "vterm":
@@ -632,6 +760,18 @@ func c20Stats(cases []string) map[string]int {
 			}
 			if strings.ContainsAny(it.text, "\n\r") {
 				st["text.withNewline"]++
+			}
+			if strings.ContainsAny(it.text, "\t\b\x0b\x0c") {
+				st["text.withTabBs"]++
+			}
+			for _, r := range it.text {
+				if c20Width(r) == 2 {
+					st["text.wideRune"]++
+					break
+				}
+			}
+			if !utf8.ValidString(it.text) {
+				st["text.invalidUtf8"]++
 			}
 		}
 	}
